@@ -145,6 +145,28 @@ fn run_upstream(l: TcpListener, up: Upstream, log: Arc<Mutex<UpLog>>, rng_seed: 
     if up.kind == "accept-close" {
         return;
     }
+    if up.kind == "slow-reader" {
+        // A tiny receive window, drained a few bytes at a time at intervals shorter than the
+        // timeout: every single write of the proxy makes progress before a per-write timeout
+        // would fire, yet the request as a whole takes several timeouts to get through.
+        use std::io::Read;
+        s.sim_set_window(16);
+        let mut tmp = [0u8; 16];
+        if up.cut % 3 == 0 {
+            // never drains at all
+            humsim::thread::sleep(Duration::from_secs(3600));
+            return;
+        }
+        for _ in 0..60 {
+            humsim::thread::sleep(Duration::from_millis(up.delay_ms.max(1)));
+            let _ = s.set_read_timeout(Some(Duration::from_millis(1)));
+            match s.read(&mut tmp) {
+                Ok(0) => return,
+                _ => {}
+            }
+        }
+        return;
+    }
     let req = read_request(&mut s);
     log.lock().unwrap().received = req;
     let wire = up.resp.render();
@@ -207,7 +229,7 @@ impl Prop for C09 {
         }
     }
     fn rule(&self) -> &'static str {
-        "One case = one client request (C02 generator) proxied to one scripted upstream behaviour. Run indices walk the cut offsets of generated valid responses (39 status codes; Content-Length / chunked with random chunkings and hex case / close-delimited / body-less) so that, for every generated response in the batch, EVERY byte offset is cut once by FIN and once by RST; interleaved with the other behaviours: valid (closing and keep-alive upstreams), garbage (8 kinds), connection refused, black-holed SYN, accept-then-silence, accept-then-close, stall after k bytes, nothing for 30..90% of the timeout then a partial response then silence, one byte per 50 virtual ms; through proxy_request directly and through the server's proxy_handler (prefix stripping for the patterns /api/*, /*, /a/b/*, /api* with paths in which the literal prefix occurs once, twice or three times in a row, alone, or again further down), plus target-selection cases (1..4 targets; 1..8 threads selecting through the real EqMutex<LoadBalancer>, or 1..8 concurrent requests through the real proxy_handler to upstreams that answer with their index). Distinct = distinct (behaviour, status, framing, cut offset class, outcome); non-trivial = the upstream accepted a connection or a fault was injected."
+        "One case = one client request (C02 generator) proxied to one scripted upstream behaviour. Run indices walk the cut offsets of generated valid responses (39 status codes; Content-Length / chunked with random chunkings and hex case / close-delimited / body-less) so that, for every generated response in the batch, EVERY byte offset is cut once by FIN and once by RST; interleaved with the other behaviours: valid (closing and keep-alive upstreams), garbage (8 kinds), connection refused, black-holed SYN, accept-then-silence, accept-then-close, stall after k bytes, nothing for 30..90% of the timeout then a partial response then silence, one byte per 50 virtual ms, a 16-byte receive window drained 16 bytes at a time every 30..90% of the timeout or never (each write of the proxy makes progress, the request as a whole does not get through in time); through proxy_request directly and through the server's proxy_handler (prefix stripping for the patterns /api/*, /*, /a/b/*, /api* with paths in which the literal prefix occurs once, twice or three times in a row, alone, or again further down), plus target-selection cases (1..4 targets; 1..8 threads selecting through the real EqMutex<LoadBalancer>, or 1..8 concurrent requests through the real proxy_handler to upstreams that answer with their index). Distinct = distinct (behaviour, status, framing, cut offset class, outcome); non-trivial = the upstream accepted a connection or a fault was injected."
     }
     fn assumptions(&self) -> Vec<String> {
         vec![
@@ -218,7 +240,7 @@ impl Prop for C09 {
         ]
     }
     fn expected_counters(&self) -> Vec<&'static str> {
-        vec!["c09.valid", "c09.cut_fin", "c09.cut_rst", "c09.garbage", "c09.refuse", "c09.blackhole", "c09.silence", "c09.accept_close", "c09.stall", "c09.late-stall", "c09.trickle", "c09.handler_mode", "c09.balance_through_handler", "c09.handler_path.prefix-repeated", "c09.handler_path.equal-prefix", "c09.handler_path.prefix-later", "c09.balance_mode", "c09.framing.chunked", "c09.framing.close", "c09.framing.cl", "c09.framing.none", "c09.keepalive_upstream", "net.connect_refused", "net.connect_blackholed", "net.rst_sent"]
+        vec!["c09.valid", "c09.cut_fin", "c09.cut_rst", "c09.garbage", "c09.refuse", "c09.blackhole", "c09.silence", "c09.accept_close", "c09.stall", "c09.late-stall", "c09.trickle", "c09.slow-reader", "c09.handler_mode", "c09.balance_through_handler", "c09.handler_path.prefix-repeated", "c09.handler_path.equal-prefix", "c09.handler_path.prefix-later", "c09.balance_mode", "c09.framing.chunked", "c09.framing.close", "c09.framing.cl", "c09.framing.none", "c09.keepalive_upstream", "net.connect_refused", "net.connect_blackholed", "net.rst_sent"]
     }
     fn real_vs_stub(&self) -> (Vec<&'static str>, Vec<&'static str>) {
         (vec!["humphrey::http::proxy::proxy_request", "Response::from_stream + parse_chunk", "From<Request> for Vec<u8>", "humphrey_server::proxy::{proxy_handler, LoadBalancer::select_target, EqMutex}", "Lcg"], vec!["TcpStream / connect_timeout / timeouts (humsim::net)", "Instant/SystemTime (virtual)", "the upstream is a scripted reference server"])
@@ -253,6 +275,7 @@ impl Prop for C09 {
                 79..=83 => "stall",
                 84..=88 => "late-stall",
                 89..=92 => "trickle",
+                93..=95 => "slow-reader",
                 _ => "valid",
             }
             .into();
@@ -261,7 +284,7 @@ impl Prop for C09 {
             if up.kind == "valid" && rng.chance(1, 3) {
                 up.resp = gen_resp_model(&mut rng, 3000);
             }
-            if r >= 93 {
+            if r >= 96 {
                 mode = "balance".into();
             } else if rng.chance(1, 3) {
                 mode = "handler".into();
@@ -332,7 +355,11 @@ impl Prop for C09 {
         let model2 = model.clone();
         let mut scn2 = scn2;
         scn2.upstream.delay_ms = timeout_ms * scn.upstream.delay_ms.clamp(10, 95) / 100;
-        let outcome = sim::run(scn.sim.to_config(), move || {
+        if scn.upstream.kind == "slow-reader" {
+            // the window must be small from the first byte on
+            scn2.sim.rx_capacity = Some(16);
+        }
+        let outcome = sim::run(scn2.sim.to_config(), move || {
             let scn = scn2;
             match scn.upstream.kind.as_str() {
                 "refuse" => {}
